@@ -1,17 +1,26 @@
-"""C16 child interpreter: started once per (PYTHONHASHSEED, chunk).  Rebuilds every value of the chunk from its recipe,
+"""C16 child interpreter: started once per (PYTHONHASHSEED, chunk).  The recipes of the chunk (several option sets per
+value, many values) are executed in an order that depends on the interpreter (as listed / reversed / shuffled), so that
+every (value, options) is dumped after a different history of earlier dumps in each process.
+Rebuilds every value of the chunk from its recipe,
 dumps it in each requested insertion-order variant with each dumper and writes digests of the output texts; in `full`
 mode also the re-dump after load (fixed point), the anchor names alone / as second document / after another document,
 and the key orders as inserted / in the document / as loaded.  Observes only; every comparison is made by TLC."""
 import hashlib, json, random, sys
 
 
-def main(inp, outp):
+def main(inp, outp, order=0):
     from harness.common import use_repo
     from harness import c02_util as U
     yaml = use_repo()
     job = json.load(open(inp))
-    res = []
-    for rec in job['recipes']:
+    idx = list(range(len(job['recipes'])))
+    if order == 1:
+        idx.reverse()
+    elif order >= 2:
+        random.Random(len(idx) * 7919 + order).shuffle(idx)
+    res = [None] * len(idx)
+    for ri in idx:
+        rec = job['recipes'][ri]
         value0, opts = U.rebuild(rec)
         out = {'outs': {}, 'fixed': {}, 'anchors': {}, 'order': {}}
         for variant in job['variants']:
@@ -23,7 +32,7 @@ def main(inp, outp):
                 except Exception as e:
                     out['outs']['%d/%s' % (variant, dumper)] = 'dump-error:' + type(e).__name__
                     continue
-                if job['full'] and variant == 0:
+                if job['full'] and variant == 0 and not rec.get('light'):
                     D = getattr(yaml, dumper)
                     for loader in U.LOADERS:
                         L = getattr(yaml, loader)
@@ -48,9 +57,9 @@ def main(inp, outp):
                         out['anchors'][dumper] = [alone, second, after]
                     except Exception as e:
                         out['anchors'][dumper] = [['error:' + type(e).__name__], [], []]
-        res.append(out)
+        res[ri] = out
     json.dump(res, open(outp, 'w'))
 
 
 if __name__ == '__main__':
-    main(sys.argv[1], sys.argv[2])
+    main(sys.argv[1], sys.argv[2], int(sys.argv[3]) if len(sys.argv) > 3 else 0)
